@@ -70,6 +70,45 @@ def ecb4x (w : List UInt64) (skExp : List UInt64) (nrounds : Nat) : List UInt8 :
   let q := roundsQ q (fun r => (skExp.drop (8 * r)).take 8) nrounds
   (sliceOut q).flatMap enc32le
 
+/-! ### key schedule and wrappers (control code: text-checked by the translator, modelled here) -/
+/-- `sub_word(x)`: q = {x, 0, …}; ortho; Sbox; ortho; (uint32_t)q[0] -/
+def subWordC (x : UInt64) : UInt64 :=
+  (orthoQ (sboxQ (orthoQ ((x &&& 0xffffffff) :: List.replicate 7 0)))).getD 0 0 &&& 0xffffffff
+/-- `tmp = (tmp << 24) | (tmp >> 8)` in uint32_t arithmetic (`tmp` is a uint32_t: only its low 32 bits exist) -/
+def rotWordC (t : UInt64) : UInt64 :=
+  (((t &&& 0xffffffff) <<< UInt64.ofNat 24) ||| ((t &&& 0xffffffff) >>> UInt64.ofNat 8)) &&& 0xffffffff
+
+/-- the word expansion loop of `br_aes_ct64_keysched` for key_len = 32, driven by the extracted control data `ks_ops`:
+    skey[0..59] -/
+def expandWords (key : List UInt8) : List UInt64 :=
+  let w0 := (List.range SqiGen.Aes.ks_nk).map fun i => dec32le (key.drop (4 * i))
+  ((SqiGen.Aes.ks_ops.zipIdx).foldl (fun (st : List UInt64 × UInt64) (x : (Nat × Nat) × Nat) =>
+      let i := SqiGen.Aes.ks_nk + x.2
+      let tmp := if x.1.1 = 1 then subWordC (rotWordC st.2) ^^^ (SqiGen.Aes.Rcon.getD x.1.2 0).toUInt64
+                 else if x.1.1 = 2 then subWordC st.2 else st.2
+      let tmp := tmp ^^^ st.1.getD (i - SqiGen.Aes.ks_nk) 0
+      (st.1 ++ [tmp], tmp)) (w0, w0.getD (SqiGen.Aes.ks_nk - 1) 0)).1
+
+/-- one iteration of the compression loop: skey[i..i+3] ↦ comp_skey[j], comp_skey[j+1] -/
+def compress (ws : List UInt64) : List UInt64 :=
+  ((runPrim SqiGen.Aes.ks_compress_prog SqiGen.Aes.ks_compress_nreg (ws ++ [0, 0])).drop 4).take 2
+/-- `br_aes_ct64_keysched(comp_skey, key, 32)` -/
+def keysched (key : List UInt8) : List UInt64 :=
+  (List.range (SqiGen.Aes.ks_nkf / 4)).flatMap fun r => compress (((expandWords key).drop (4 * r)).take 4)
+/-- one iteration of `br_aes_ct64_skey_expand`: comp_skey[u] ↦ skey[v..v+3] -/
+def expand1 (c : UInt64) : List UInt64 :=
+  ((runPrim SqiGen.Aes.ks_expand_prog SqiGen.Aes.ks_expand_nreg [c]).drop 1).take 4
+/-- `br_aes_ct64_skey_expand(sk_exp, comp_skey, 14)` -/
+def skeyExpand (comp : List UInt64) : List UInt64 := comp.flatMap expand1
+
+/-- `AES_256_ECB(input, key, output)`: aes256_ecb_keyexp, aes256_ecb with nblocks = 1 → aes_ecb: `br_range_dec32le(blocks, 4, in)`
+    fills blocks[0..3] only, the other 12 words of `blocks` are uninitialised stack (`garbage`, arbitrary), aes_ecb4x into a
+    64-byte temporary, memcpy of the first 16 bytes -/
+def aes256Ecb (garbage : List UInt64) (key block : List UInt8) : List UInt8 :=
+  let sk := skeyExpand (keysched key)
+  let w := ((List.range 4).map fun c => dec32le (block.drop (4 * c))) ++ garbage
+  (ecb4x w sk SqiGen.Aes.ks_nrounds).take 16
+
 /-! ### the coordinates of the bitsliced representation -/
 /-- bit position of state byte i = r + 4c of block blk -/
 def pos (i blk : Nat) : Nat := 16 * (i % 4) + 4 * (i / 4) + blk
